@@ -82,7 +82,7 @@ def extract_facts(repo=REPO, features=None):
         ents = [os.path.join(CACHE, e) for e in os.listdir(CACHE)
                 if os.path.isdir(os.path.join(CACHE, e)) and not e.endswith(".tmp")]
         ents.sort(key=os.path.getmtime, reverse=True)
-        for e in ents[6:]:
+        for e in ents[48:]:
             shutil.rmtree(e, ignore_errors=True)
         return d, key, False
     finally:
